@@ -14,14 +14,16 @@ CHECK = {
                   "A transfer that has not finished within 10 s is counted inconclusive.",
     "technique": "property-based testing (rapid) with fault injection on the transfer stream: per-key verdict predicate + end-to-end differential (queued element == accepted keys/contents)",
     "runs": [
-        {"name": "offer", "run": "^TestC09_", "checks": {"quick": 30, "thorough": 50}, "shards": {"quick": 6, "thorough": 16}, "rounds": {"quick": 2, "thorough": 6}},
+        {"name": "offer", "run": "^TestC09_Offer$", "checks": {"quick": 30, "thorough": 50}, "shards": {"quick": 6, "thorough": 16}, "rounds": {"quick": 2, "thorough": 6}},
+        {"name": "concurrent", "run": "^TestC09_ConcurrentOffers$", "checks": {"quick": 12, "thorough": 25}, "shards": {"quick": 6, "thorough": 16}, "rounds": {"quick": 2, "thorough": 5}},
     ],
     "rule": "rapid draws (version sets, key specs {seed, stored|unstored|inflight, content length 0..20000}, radius class max/zero/split-at-kth-key, slot limit, slots in use, "
-            "queue capacity, queue full?, stream class, second offer?). Non-trivial = mixed verdicts, rate-limited reply, completed transfer compared, discarded wrong-count/undecodable "
+            "queue capacity, queue full?, stream class, second offer?), and for the sending side (2..8 offers of different contents issued at the same time by one real instance to 1..3 real receivers, "
+            "each receiver must be handed every offer addressed to it as a whole, keys and contents in order). Non-trivial = mixed verdicts, rate-limited reply, completed transfer compared, discarded wrong-count/undecodable "
             "stream, lost transfer, overlapping offer; distinct = distinct plan digests.",
     "assumptions": [
         "pairs without a common protocol version are skipped here (C19)",
         "with a full validation queue a correctly transferred element may be dropped (the statement only constrains what is handed over)",
     ],
-    "required_classes": {"quick": ["mixed-verdicts", "rate-limited-reply", "transfer-completed", "lost-transfer", "overlapping-offer", "version:0", "version:1", "stream-discarded:more", "stream-discarded:truncated", "offer-after-overlapping-offer-ended"]},
+    "required_classes": {"quick": ["mixed-verdicts", "rate-limited-reply", "transfer-completed", "lost-transfer", "overlapping-offer", "version:0", "version:1", "stream-discarded:more", "stream-discarded:truncated", "offer-after-overlapping-offer-ended", "concurrent-offers:4", "concurrent-offers-of-different-sizes"]},
 }
